@@ -164,17 +164,27 @@ def run_family(ck, prefixes, *, model_prop, quick, thorough):
         behaviours = []
         for name, kw, num, depth in P["simulate"]:
             cfg = model_cfg(model_prop, view=False, **kw)
-            pre = os.path.join(tmp, f"sim_{name}")
-            r = tlc.run("MailStore", cfg, workers=1, timeout=P.get("tlc_timeout", 900),
-                        simulate=f"file={pre},num={num}", depth=depth, seed=ck.seed + 1)
-            ck.add_tlc(f"simulate:{name}", r, exhaustive=False)
-            if r.violated:
-                ck.violation(prefixes[0] + "ModelViolatesPropertyLayer", act="model",
-                             where=name, detail=f"TLC simulation: {r.violated} violated",
-                             replay_obj={"tlc_out": r.out[-6000:]})
-            elif r.rc != 0:
-                raise RuntimeError(f"TLC simulate failed ({name}): {r.error}")
-            behaviours += mailreplay.load_behaviours(pre)
+            # TLC's simulation mode runs on one worker: large numbers of behaviours are generated by
+            # several TLC processes with different seeds (the seeds depend only on the check's seed)
+            parts = 8 if num >= 200 else 1
+            from concurrent.futures import ThreadPoolExecutor
+
+            def sim(j, name=name, cfg=cfg, num=num, depth=depth, parts=parts):
+                pre = os.path.join(tmp, f"sim_{name}_{j}")
+                n = num // parts + (1 if j < num % parts else 0)
+                return pre, tlc.run("MailStore", cfg, workers=1, timeout=P.get("tlc_timeout", 900),
+                                    simulate=f"file={pre},num={n}", depth=depth, seed=ck.seed + 1 + 1000 * j)
+            with ThreadPoolExecutor(max_workers=parts) as ex:
+                outs = list(ex.map(sim, range(parts)))
+            for j, (pre, r) in enumerate(outs):
+                ck.add_tlc(f"simulate:{name}" + (f":{j}" if parts > 1 else ""), r, exhaustive=False)
+                if r.violated:
+                    ck.violation(prefixes[0] + "ModelViolatesPropertyLayer", act="model",
+                                 where=name, detail=f"TLC simulation: {r.violated} violated",
+                                 replay_obj={"tlc_out": r.out[-6000:]})
+                elif r.rc != 0:
+                    raise RuntimeError(f"TLC simulate failed ({name}): {r.error}")
+                behaviours += mailreplay.load_behaviours(pre)
         jobs = [("replay", b, ck.seed * 100000 + i) for i, b in enumerate(behaviours)]
         for i in range(P["random"]):
             jobs.append(("random", P.get("gen", {}), ck.seed * 100000 + 50000 + i))
